@@ -395,9 +395,41 @@ def check_versions(case):
         env.drop_db(dbdir)
 
 
+def check_history(case):
+    """one process, one database: E stays installed while the queried lexicon L is observed, removed and added
+    again with OTHER ILIs (it takes over the freed rowids), observed, ... - every observation must follow the
+    documents installed at that moment (a back-mapping ILI -> local synsets remembered from before is stale)"""
+    env.fresh_db()
+    dbdir = env.db_path().parent
+    V, obs, n = [], [], 0
+    try:
+        e_ilis = case['e_ilis']
+        edges = [PAIRS3[i] for i in range(6) if case['e_mask'] >> i & 1]
+        env.add_resource(mk.resource([build_E('E', e_ilis, edges)], '1.3'))
+        Es = [('E', tuple(e_ilis), edges)]
+        for step, (lil, own) in enumerate(case['seq']):
+            own = [tuple(q) for q in own]
+            if step:
+                env.remove('L:1')
+            env.add_resource(mk.resource([build_L('L', lil, own)], '1.3'))
+            for name, expand, use in (('E', 'E:1', Es), ('none', '', [])):
+                with warnings.catch_warnings():
+                    warnings.simplefilter('ignore')
+                    w = wn.Wordnet(lexicon='L:1', expand=expand)
+                ref = Ref(('L', tuple(lil), own), use)
+                for k in range(len(lil)):
+                    n += 1
+                    observe_synset(w, 'L', k, ref, V, f'history step {step} expand={name}', case, obs)
+        return {'v': V, 'digs': [runner.digest(obs)], 'nt': 1, 'n': n}
+    finally:
+        env.drop_db(dbdir)
+
+
 def check(case):
     if case.get('versions'):
         return check_versions(case)
+    if case.get('history'):
+        return check_history(case)
     return check_config(case) if case.get('config') else check_pairs(case)
 
 
@@ -421,6 +453,14 @@ def space(tier, seed):
         for m2 in ([3, 12, 33] if tier == 'thorough' else [12]):
             cases.append({'e_ilis': ['i1', 'i2', 'i3'], 'e_mask': mask,
                           'e2': {'ilis': ['i3', 'i1', 'i2'], 'mask': m2}, 'Ls': Ls})
+    # histories: L observed, removed, re-added with other ILIs (same ids, freed rowids re-used), observed again
+    seqs = []
+    for a, b in itertools.permutations([('i1', None), ('i1', 'i2'), ('i2', 'i3'), (None, 'i3'), ('i3', 'i1')], 2):
+        seqs.append([[list(a), []], [list(b), []]])
+        seqs.append([[list(a), [[0, 1]]], [list(b), []], [list(a), [[1, 0]]]])
+    for mask in ([21, 42, 63, 9] if tier == 'quick' else range(1, 64)):
+        for sq in seqs:
+            cases.append({'history': True, 'e_ilis': ['i1', 'i2', 'i3'], 'e_mask': mask, 'seq': sq})
     for layout in ('one', 'two', 'shared'):
         for installed in (['1', '2'], ['2', '1'], ['1'], ['2'], []):
             cases.append({'versions': True, 'layout': layout, 'installed': installed})
